@@ -261,9 +261,12 @@ let () =
             let ok = f h.h_raw o0 h.h_events in
             let idx = if ok then -1 else first_fail (fun evs -> f h.h_raw o0 evs) h.h_events in
             Printf.sprintf "m:%s %d %d" name (if ok then 1 else 0) idx) monitor_table in
-    Printf.printf "hist %d line %d nev %d acc %s %s\n" i h.h_line nev
+    let flags = match h.h_obs with
+      | Some o0 -> Printf.sprintf " f:k_RES %d" (if known_RES h.h_raw o0 h.h_events then 1 else 0)
+      | None -> "" in
+    Printf.printf "hist %d line %d nev %d acc %s %s%s\n" i h.h_line nev
       (match acc with None -> "ok" | Some (k, c) -> Printf.sprintf "div %d %s" k c)
-      (String.concat " " mons);
+      (String.concat " " mons) flags;
     (match coq_out, h.h_obs with
      | Some _, Some o0 when List.length !coq_cases < coq_max && nev <= 40 ->
          let verdicts = List.map (fun (_, f) -> f h.h_raw o0 h.h_events) monitor_table in
